@@ -1,6 +1,7 @@
 package recovery
 
 import (
+	"bytes"
 	"encoding/json"
 	"fmt"
 	"io"
@@ -180,9 +181,26 @@ func LoadCheckpointList(fs storage.FileSystem, dataOwnership kv.DataOwnership, c
 		}
 	}
 
+	// Below level 0 a level is searched by key, so its tables must be ordered by
+	// key and listed once, whatever order the handles were given in.
+	for levelIndex := 1; levelIndex < len(compositeCheckpointDoc.Levels); levelIndex++ {
+		compositeCheckpointDoc.Levels[levelIndex] = sortedUniqueTables(compositeCheckpointDoc.Levels[levelIndex])
+	}
+
 	compositeCheckpoint := newCheckpointFromDocument(fs, dataOwnership, compositeCheckpointDoc)
 
 	return &CheckpointList{checkpoints: []*Checkpoint{compositeCheckpoint}}, nil
+}
+
+// sortedUniqueTables orders table documents by start key and drops repeated
+// references to the same file.
+func sortedUniqueTables(tables []sst.TableDocument) []sst.TableDocument {
+	slices.SortFunc(tables, func(a, b sst.TableDocument) int {
+		return bytes.Compare(a.StartKey, b.StartKey)
+	})
+	return slices.CompactFunc(tables, func(a, b sst.TableDocument) bool {
+		return a.URI == b.URI
+	})
 }
 
 // Example format:
